@@ -28,6 +28,9 @@ import PyYetiVerif.Props.C13Cord
 #print axioms PyYetiVerif.C13.dmig_assignments_iff
 #print axioms PyYetiVerif.C13.dmig_reader_on_written
 #print axioms PyYetiVerif.C13.dmig_frame_roundtrip
+#print axioms PyYetiVerif.C13.dmig_value_field
+#print axioms PyYetiVerif.C13.dmig_lines_cards
+#print axioms PyYetiVerif.C13.dmig_text_roundtrip
 #print axioms PyYetiVerif.C13.vecwrite_length_rule
 #print axioms PyYetiVerif.C13.vecwrite_mismatch_raises
 #print axioms PyYetiVerif.C13.vecwrite_broadcast
